@@ -1192,3 +1192,45 @@ func OperandSweepProg(k, kind int) *Prog {
 	}
 	return &Prog{Stmts: top}
 }
+
+// ExprSweepProg is the expression-level companion of OperandSweepProg: after
+// k unrelated declarations (slots and constant indices 0..k-1 taken), unary
+// chains, short circuits and comparisons are applied to a string variable, an
+// int variable and fresh literals, whose operands therefore carry the values
+// k, k+1, ... The results are printed.
+func ExprSweepProg(k int) *Prog {
+	var top []*Stmt
+	for i := 0; i < k; i++ {
+		top = append(top, &Stmt{K: "var", Name: "z" + strconv.Itoa(i), E: &Expr{K: "int", T: strconv.Itoa(100000 + i)}})
+	}
+	id := func(n string) *Expr { return &Expr{K: "id", T: n} }
+	un := func(op string, e *Expr) *Expr { return &Expr{K: op, A: e} }
+	bin := func(op string, a, b *Expr) *Expr { return &Expr{K: "bin", T: op, A: a, B: b} }
+	str := func(s string) *Expr { return &Expr{K: "str", T: `"` + s + `"`} }
+	lit := func(s string) *Expr { return &Expr{K: "int", T: s} }
+	pr := func(e *Expr) *Stmt { return &Stmt{K: "print", E: e} }
+	top = append(top,
+		&Stmt{K: "var", Name: "s", E: str("abc")},
+		&Stmt{K: "var", Name: "n", E: lit("0")},
+		&Stmt{K: "var", Name: "f", E: &Expr{K: "float", T: "2.5"}},
+		pr(un("not", un("not", id("s")))),
+		pr(un("not", un("not", id("n")))),
+		pr(un("not", un("not", str("lit")))),
+		pr(un("not", un("not", lit("4711")))),
+		pr(un("neg", un("neg", id("f")))),
+		pr(un("not", bin("==", id("n"), lit("4712")))),
+		pr(un("not", bin("<", id("n"), id("f")))),
+		pr(&Expr{K: "and", A: id("s"), B: id("n")}),
+		pr(&Expr{K: "or", A: id("n"), B: str("other")}),
+		pr(bin("+", id("s"), bin("*", id("f"), lit("4713")))),
+		pr(bin("<=", un("neg", id("f")), id("n"))),
+		pr(un("not", un("not", un("not", id("s"))))),
+		&Stmt{K: "def", Name: "b", Body: []*Stmt{
+			{K: "expr", E: &Expr{K: "asg", T: "x", A: un("not", un("not", id("s")))}},
+			{K: "expr", E: &Expr{K: "asg", T: "y", A: un("not", un("not", id("x")))}},
+			{K: "expr", E: &Expr{K: "asg", T: "w", A: bin("!=", id("x"), id("y"))}},
+			pr(id("x")), pr(id("y")), pr(id("w")),
+		}},
+	)
+	return &Prog{Stmts: top}
+}
